@@ -904,7 +904,10 @@ func (s *c19Sess) runList(ops []*c19Op, gate *c19Gate, skew int) {
 
 var (
 	c19Kinds   = []int64{0, 1, 3, 5, 7, 1059, 10002, 20001, 30023, 40000, 65535}
-	c19SubPool = []string{"a", "b", "sub-1", "", "x:y", "α", " a", "b "}
+	// short ids, ids that differ only in case / surrounding blanks, and ids that are longer than
+	// 64 bytes and differ only beyond byte 64 (nothing in the relay enforces a length)
+	c19SubPool = []string{"a", "b", "sub-1", "", "x:y", "α", " a", "b ", "A",
+		strings.Repeat("s", 64), strings.Repeat("s", 64) + "-one", strings.Repeat("s", 64) + "-two"}
 )
 
 func (g *c19Group) mark() string {
@@ -1574,6 +1577,9 @@ func c19NewGroup(rep *vk.Report, profile string, gi int, r *rand.Rand) *c19Group
 	perm := r.Perm(len(c19SubPool))
 	for _, i := range perm[:n] {
 		g.subIDs = append(g.subIDs, c19SubPool[i])
+	}
+	if r.IntN(5) == 0 { // both long ids in one group
+		g.subIDs = append(g.subIDs[:1], strings.Repeat("s", 64)+"-one", strings.Repeat("s", 64)+"-two")
 	}
 	g.desc = map[string]any{"profile": profile, "rng_stream": "C19/" + profile, "case_index": gi, "seed": vk.Seed(), "subscription_ids": g.subIDs}
 	if profile == "maxsubs" {
